@@ -98,6 +98,11 @@ def source_table(thorough):
     for rep in (1, 2):
         for extra in (1, 3):
             E("FileSource<u32>", {"repeat": rep, "extra": extra}, "ramp", 9)
+    # ... also when the whole samples end exactly at a read boundary (a read = the free output
+    # space; the stream holds 1024 u32), so that the stray bytes arrive alone in the next read
+    for rep in (2, 3):
+        for n, extra in ((1024, 2), (1024, 1), (2048, 3), (512, 1)):
+            E("FileSource<u32>", {"repeat": rep, "extra": extra}, "ramp", n)
     return t
 
 
